@@ -10,6 +10,7 @@
 #include <stdbool.h>
 #include <stddef.h>
 #include <stdint.h>
+#include <stdlib.h>
 
 /* CBMC's pointer model with --object-bits 12 caps one object at 2^51 bytes and
  * __CPROVER_is_fresh asserts size < __CPROVER_max_malloc_size.  Every "unbounded" length
@@ -62,6 +63,21 @@
 #define H_TOTAL_OLD(h)                                                                   \
   (__CPROVER_old((h)->chunk.chunk_counter) * (uint64_t)1024 +                            \
    (uint64_t)CS_LEN_OLD(&(h)->chunk))
+
+/* ---- the CPU feature cache (static g_cpu_features of blake3_dispatch.c) ------------- */
+/* the cache is either still UNDEFINED or holds feature bits only */
+#define VERIF_FEATURE_BITS (SSE2 | SSSE3 | SSE41 | AVX | AVX2 | AVX512F | AVX512VL)
+#define VERIF_GCPU_OK (g_cpu_features == UNDEFINED || (g_cpu_features & ~VERIF_FEATURE_BITS) == 0)
+/* harnesses start from an arbitrary cache state, not only from the initial UNDEFINED */
+#define VERIF_HAVOC_GLOBALS() do { int verif_nd_; g_cpu_features = verif_nd_; } while (0)
+
+/* vacuity guard used by the self-test only (-DVERIF_SANITY): the end of every harness must
+ * be reachable, i.e. this assertion must FAIL; in normal runs the macro is empty */
+#ifdef VERIF_SANITY
+#define VERIF_REACHABLE() __CPROVER_assert(0, "VERIF_SANITY: end of harness is reachable")
+#else
+#define VERIF_REACHABLE() do { } while (0)
+#endif
 
 /* ---- observers: make pre-state fields show up in counterexample traces ------------- */
 #define VERIF_OBS(name, type)                                                            \
